@@ -28,7 +28,9 @@ RULE = (
     "histories of array checks (dim string, shape, dtype/type flags) inside one jaxtyped context or "
     "typechecker=None call; quick: every dim string of <=2 tokens over the 13-token set x every shape "
     "of rank<=3 over sizes {0,1,2,3} x 3 prior states (exhaustive), a seeded sample of 3-token strings, "
-    "plus seeded random histories from the full grammar; a case is non-trivial when the annotation "
+    "plus seeded random histories from the full grammar; every history of 2 and of 3 uses of one multi-axis "
+    "name (`*v` / `*#v`) over a pool of 11 (quick) / 15 shapes with size-0 and size-1 axes and differing "
+    "ranks (exhaustive), seeded histories of 3-4 uses with prefix / suffix axes; a case is non-trivial when the annotation "
     "builds and the value reaches the shape walk; distinct = distinct (prior, dims, shape) / history"
 )
 TRUSTED = [
@@ -134,6 +136,35 @@ def bcast_vs_numpy(out, drv, rng, n_random):
     out.evaluations += len(pairs)
 
 
+VAR_POOL = [[], [1], [2], [0], [3], [1, 3], [2, 3], [1, 1], [5, 2, 3], [1, 2, 3], [2, 1], [0, 3], [1, 0], [5, 1, 3], [3, 3]]
+VAR_POOL_QUICK = [[], [1], [2], [0], [1, 3], [2, 3], [5, 2, 3], [1, 2, 3], [2, 1], [1, 0], [0, 3]]
+
+
+def variadic_histories(out, drv, facts, rng, thorough):
+    import itertools
+
+    pool = VAR_POOL if thorough else VAR_POOL_QUICK
+    uses = [(form, sh) for form in ("*v", "*#v") for sh in pool]
+    hists = []
+    for n in (2, 3):
+        for combo in itertools.product(uses, repeat=n):
+            hists.append(([{"dims": f, "shape": s} for f, s in combo], {}))
+    # four uses, and uses with a prefix / suffix axis around the multi-axis specifier: seeded
+    wrapped = [("a *v", lambda s: [4] + s), ("*#v b", lambda s: s + [7]), ("#*v 2", lambda s: s + [2]), ("a *#v b", lambda s: [4] + s + [7]), ("*v", lambda s: s), ("*#v", lambda s: s)]
+    for _ in range(40000 if thorough else 4000):
+        n = rng.rng(3, 4)
+        ops = []
+        base = rng.choice(pool)
+        for _k in range(n):
+            d, mk = rng.choice(wrapped)
+            sh = rng.choice(pool) if rng.chance(1, 2) else ([1 if rng.chance(1, 3) else x for x in base] if rng.chance(2, 3) else [rng.rng(1, 5)] + list(base))
+            ops.append({"dims": d, "shape": mk(list(sh))})
+        hists.append((ops, {}))
+    for i in range(0, len(hists), 1500):
+        run_batch(out, drv, hists[i:i + 1500], facts, "variadic")
+    out.count("variadic_histories", len(hists))
+
+
 def run(tier, seed, out, drv, facts):
     rng = Rng(seed, "C01")
     thorough = tier == "thorough"
@@ -172,7 +203,11 @@ def run(tier, seed, out, drv, facts):
             batch = []
     if batch:
         run_batch(out, drv, batch, facts, "rand")
-    # 3. the modelled broadcast rule against numpy
+    # 3. every history of <=3 uses of one multi-axis name (`*v` / `*#v`, with and without other axes around
+    #    it) over a pool of shapes with size-0 / size-1 axes and differing ranks: the four-way branch at
+    #    the end of `_check_shape` and what it stores, as a function of everything seen before
+    variadic_histories(out, drv, facts, rng, thorough)
+    # 4. the modelled broadcast rule against numpy
     bcast_vs_numpy(out, drv, rng, 20000 if thorough else 2000)
 
 
